@@ -1,4 +1,5 @@
-import CssVerif.Model.Ns
+import CssVerif.Model.NsShare
+import CssVerif.Model.NsCalls
 /-!
 Driver for C15 (stateful): one sheet; every operation replies with its outcome and the canonical state.
 
@@ -9,7 +10,14 @@ requests
   insnstext <p> <u> <c0c1c2> <idx> <inorder>
   setns <p> <u> | delns <p> | delrule <i> | setprefix <i> <q>
   setsel <i> <ssels> | insstyle <ssels> <idx> <inorder> | insobj <sels> <idx> <inorder>
+  setnstext <i> <p> <u> <c0c1c2> | rawdel <i> | insmedia <i> <ssels> <idx>
+  wreset                            two empty sheets, no followed object
+  w <side> <one of the requests above>      side: `0` = sheet A, `1` = sheet B
+  wgrab <side> <i> <ssels> | wshare <side> <idx> <inorder> | wobjsel <ssels>
+                                    reply: `<outcome> A:<state of A> B:<state of B> O=<owner a|b|n>:<index in A|->:<index in B|->`
   resolve <dict> <ssel>             stateless: a detached Selector((text, dict))
+  calls <dict> <calls>              stateless: the calls of New.append (`+`-joined: `p<ps>` prefix | `c:<hex>` comment |
+                                    `n:<k>:<name>` | `o:<val>:<ser>` | `x`); reply `ok <items and c:<hex>, +-joined>` | `err:Name`
   ser <dict> <sel>                  stateless
 
 encodings (strings are dotted hex, `-` = empty)
@@ -198,26 +206,110 @@ def parseOp (ws : List String) : Option Op :=
     | some i, some p, some u, [a, b, d] => some (.setNsText i p u (a == '1') (b == '1') (d == '1'))
     | _, _, _, _ => none
   | ["rawdel", i] => i.toNat?.map .rawDel
+  | ["insmedia", i, sels, idx] => match i.toNat?, parseSSels sels, parseIdx idx with
+    | some i, some sels, some idx => some (.insMediaText i sels idx)
+    | _, _, _ => none
   | ["insobj", sels, idx, io] => match parseRSels sels, parseIdx idx, parseBool io with
     | some sels, some idx, some io => some (.insStyleObj sels idx io)
     | _, _, _ => none
   | _ => none
 
-def handle (s : Sheet) (line : String) : Sheet × String :=
+def joinTexts (l : List Cps) : Cps :=
+  match l with
+  | [] => []
+  | h :: t => t.foldl (fun acc x => acc ++ commaSpace ++ x) h
+
+/-- state of one sheet of the world: the followed object writes its selectors with its own dicts -/
+def showStateW (w : World) (side : Bool) : String :=
+  let s := w.sheet side
+  let d := view s
+  let oi := w.objIndex side
+  let rules := if s.isEmpty then "_" else ";".intercalate (s.map showRule)
+  let texts := ((List.range s.length).map fun i => match s[i]? with
+    | some r =>
+      if oi = some i then match w.obj with
+        | some o => [encCps (joinTexts (w.objTexts o))]
+        | none => ruleTexts d r
+      else ruleTexts d r
+    | none => []).flatten
+  let wf := String.join (s.map fun r => match r with
+    | .ns n => if n.wf then "1" else "0"
+    | _ => "")
+  "V=" ++ showDict d ++ " R=" ++ rules ++ " T=" ++ (if texts.isEmpty then "_" else ";".intercalate texts) ++
+    " W=" ++ (if wf.isEmpty then "_" else wf)
+
+def showIdx : Option Nat → String
+  | none => "-"
+  | some i => toString i
+
+def showWorld (w : World) : String :=
+  "A:" ++ showStateW w false ++ " B:" ++ showStateW w true ++ " O=" ++
+    match w.obj with
+    | none => "_"
+    | some o => (match o.owner with
+        | none => "n"
+        | some false => "a"
+        | some true => "b") ++ ":" ++ showIdx (w.objIndex false) ++ ":" ++ showIdx (w.objIndex true)
+
+def emptyWorld : World := { a := [], b := [], obj := none }
+
+def parseWOp (ws : List String) : Option WOp :=
+  match ws with
+  | "w" :: side :: rest => match parseBool side, parseOp rest with
+    | some side, some op => some (.on side op)
+    | _, _ => none
+  | ["wgrab", side, i, sels] => match parseBool side, i.toNat?, parseSSels sels with
+    | some side, some i, some sels => some (.grab side i sels)
+    | _, _, _ => none
+  | ["wshare", side, idx, io] => match parseBool side, parseIdx idx, parseBool io with
+    | some side, some idx, some io => some (.share side idx io)
+    | _, _, _ => none
+  | ["wobjsel", sels] => (parseSSels sels).map .objSel
+  | _ => none
+
+def parseCall (w : String) : Option Call :=
+  match w.splitOn ":" with
+  | ["x"] => some .bad
+  | ["c", c] => (decCps c).map .comment
+  | ["o", v, s] => match decCps v, decCps s with
+    | some v, some s => some (.other v s)
+    | _, _ => none
+  | ["n", k, n] => match parseK k, decCps n with
+    | some k, some n => some (.name k n)
+    | _, _ => none
+  | [one] => if one.startsWith "p" then (parsePs (one.drop 1).toString).map .pfx else none
+  | _ => none
+
+def showEmit : Emit → String
+  | .item x => showItem x
+  | .comment c => "c:" ++ encCps c
+
+def handle (st : Sheet × World) (line : String) : (Sheet × World) × String :=
+  let s := st.1
   match words line with
-  | ["reset"] => ([], "ok:n " ++ showState [])
+  | ["reset"] => (([], st.2), "ok:n " ++ showState [])
+  | ["wreset"] => ((s, emptyWorld), "ok:n " ++ showWorld emptyWorld)
   | ["resolve", d, sel] => match parseDict d, parseSSel sel with
     | some d, some sel => match resolveSel d sel with
-      | .ok x => (s, "ok " ++ showSel x ++ " " ++ encCps (serSel d x))
-      | .error e => (s, "err:" ++ showErr e)
-    | _, _ => (s, "bad-op")
+      | .ok x => (st, "ok " ++ showSel x ++ " " ++ encCps (serSel d x))
+      | .error e => (st, "err:" ++ showErr e)
+    | _, _ => (st, "bad-op")
   | ["ser", d, sel] => match parseDict d, parseRSel sel with
-    | some d, some sel => (s, "ok " ++ encCps (serSel d sel))
-    | _, _ => (s, "bad-op")
+    | some d, some sel => (st, "ok " ++ encCps (serSel d sel))
+    | _, _ => (st, "bad-op")
+  | ["calls", d, cs] => match parseDict d, parseList "+" parseCall cs with
+    | some d, some cs => match runCalls d none cs with
+      | .ok ys => (st, "ok " ++ "+".intercalate (ys.map showEmit))
+      | .error e => (st, "err:" ++ showErr e)
+    | _, _ => (st, "bad-op")
   | ws => match parseOp ws with
     | some op =>
       let r := step s op
-      (r.1, showOutcome r.2 ++ " " ++ showState r.1)
-    | none => (s, "bad-op")
+      ((r.1, st.2), showOutcome r.2 ++ " " ++ showState r.1)
+    | none => match parseWOp ws with
+      | some wop =>
+        let r := wstep st.2 wop
+        ((s, r.1), showOutcome r.2 ++ " " ++ showWorld r.1)
+      | none => (st, "bad-op")
 
-def main : IO Unit := serveSt ([] : Sheet) handle
+def main : IO Unit := serveSt (([], emptyWorld) : Sheet × World) handle
